@@ -156,4 +156,6 @@ def check(ctx):
     c12.check_wrapping(ctx, F, "R3")
     rule_override(ctx, F, "R4")
     c12.check_loop_method(ctx, F, "R4", "start_with", mutable=True)
+    # a merged timeline is a function of time only if it applies every component on every evaluation
+    c12.check_loop_method(ctx, F, "R2", "update", mutable=False)
     ctx.notes.append("excluded, as in the property: a user-supplied Easing::Custom. Not decided: nothing material for built-in easings")
